@@ -199,8 +199,9 @@ Realloc(i, X, T) ==
           ELSE LET grow == Expand(lay, zone[i] \cup nx, ty)
                    z0   == zone[i] \cup nx \cup grow
                    r2   == [r EXCEPT !.types = @ \cup ty \cup TypesOfAll(lay, grow)]   \* "requested types" grow with realloc
-                   \* no further node found is an error only if a requested type is still missing from the zone
-                   P    == IF grow = {} /\ ~(ty \subseteq TypesOfAll(lay, zone[i] \cup nx)) THEN {}
+                   \* no further node found is an error only if a requested type that some node of the machine HAS is
+                   \* still missing from the zone (a type no node has cannot be demanded: Allocate accepts it, too)
+                   P    == IF grow = {} /\ ~((ty \cap TypesOfAll(lay, HasMem(lay))) \subseteq TypesOfAll(lay, zone[i] \cup nx)) THEN {}
                            ELSE {zn2 \in [DOMAIN zone -> SUBSET lay.nodes \ {{}}] :
                                     /\ zn2[i] = z0
                                     /\ MovesOK(lay, req, zone, zn2, i)
